@@ -334,27 +334,6 @@ def check_forves_verdict(a, b, rng, stats, label):
     return []
 
 
-@st.composite
-def two_store_block(draw):
-    """two stores whose keys/addresses are symbolic (they collide on aliasing states) or equal constants"""
-    kind = draw(st.sampled_from(["SSTORE", "MSTORE", "MSTORE8"]))
-    kind2 = kind if kind == "SSTORE" else draw(st.sampled_from(["MSTORE", "MSTORE8"]))
-    form = draw(st.integers(0, 3))
-    pre = draw(gen.body(min_len=0, max_len=4, profile=gen.ARITH_PROFILE, allow_split=False, max_need=4)) if draw(st.booleans()) else []
-    mid = draw(st.sampled_from([[], [("DUP1", None), ("POP", None)], [("PUSH", 7)], [("CALLER", None), ("POP", None)]]))
-    if form == 0:
-        body = [(kind, None)] + mid + [(kind2, None)]
-    elif form == 1:
-        a, b, c, d = [draw(st.integers(1, 4)) for _ in range(4)]
-        body = [("DUP%d" % a, None), ("DUP%d" % b, None), (kind, None)] + mid + [("DUP%d" % c, None), ("DUP%d" % d, None), (kind2, None)]
-    elif form == 2:
-        k = draw(st.sampled_from([0, 1, 0x20, 0x3F, 0x40]))
-        body = [("PUSH", draw(st.integers(1, 9))), ("PUSH", k), (kind, None)] + mid + [("PUSH", draw(st.integers(10, 19))), ("PUSH", k + draw(st.sampled_from([0, 0, 1, 31, 32]))), (kind2, None)]
-    else:
-        body = [("DUP2", None), ("DUP2", None), (kind, None), ("DUP1", None), ("SLOAD" if kind == "SSTORE" else "MLOAD", None), ("SWAP2", None), ("SWAP1", None), (kind2, None)]
-    return pre + body + draw(st.sampled_from([[], [("PUSH", 1)], [("STOP", None)]]))
-
-
 FORVES_OK = dict(gen.DEFAULT_PROFILE, split=6, pseudo=3, env1=0)
 
 
@@ -367,7 +346,7 @@ def shard_random(n, sd, n_forves):
     @settings(max_examples=n, database=None, deadline=None, phases=(Phase.generate,),
               suppress_health_check=list(HealthCheck), report_multiple_bugs=False)
     @given(st.one_of(gen.block(max_len=14), gen.block(max_len=16, profile=gen.MEM_PROFILE), gen.block(max_len=12, profile=gen.ARITH_PROFILE),
-                     gen.block(max_len=22, profile=gen.SPLIT_PROFILE), gen.corpus_block(), two_store_block()),
+                     gen.block(max_len=22, profile=gen.SPLIT_PROFILE), gen.corpus_block(), gen.two_store_block()),
            st.builds(lambda a, b: a + b + ["-greedy"], st.sampled_from(options.SPLIT), st.sampled_from(options.RULES)), st.integers(0, 2 ** 32))
     def prop(instrs, argv, s):
         rng = random.Random(s)
